@@ -17,7 +17,8 @@ TECHNIQUE = ('exhaustive enumeration of all strings of length <=3 over a '
              '5-symbol alphabet x positions -1..10, Hypothesis-sampled longer '
              'strings / numbers / formats, against python slicing of the '
              'Excel rendering, the identities of the statement and a Decimal '
-             'reference for TEXT')
+             'reference for TEXT'
+             '; order-independence probe')
 LEVEL_TEXT = ('Exploration, complete for short strings and the position '
               'grid; TEXT formats come from a small grammar crossed with '
               'tie-biased decimals.')
